@@ -219,7 +219,7 @@ func runC16(r *Report) {
 	}
 	// ---------------- R2
 	r.Fn(su)
-	readAt := p.Func("tor/piece", "Pieces.ReadAt")
+	_ = p
 	var pieceWrite *ssa.Call
 	var pieceLit *structLit
 	allInstrs(su, func(in ssa.Instruction) {
@@ -260,41 +260,7 @@ func runC16(r *Report) {
 		r.Check(fi == "Index" && bi == "Begin", "R2", "scheduleUpload/Piece-fields-from-request", pieceWrite.Pos(), "the Piece carries the request's own index and begin", "the Piece message's Index/Begin are not the served request's Index/Begin")
 	}
 	// ReadAt offset in 64-bit arithmetic from the entry's fields
-	if r.Anchor("R2", "piece.(*Pieces).ReadAt", readAt != nil) {
-		for _, ci := range callsIn(su) {
-			if ci.Common().StaticCallee() != readAt {
-				continue
-			}
-			off := ci.Common().Args[2]
-			narrow := ""
-			var walk func(v ssa.Value, d int)
-			walk = func(v ssa.Value, d int) {
-				if d > 8 || narrow != "" {
-					return
-				}
-				switch x := v.(type) {
-				case *ssa.BinOp:
-					if (x.Op == token.MUL || x.Op == token.ADD || x.Op == token.SHL) && intBits(x.Type()) < 64 {
-						narrow = exprStr(x)
-						return
-					}
-					walk(x.X, d+1)
-					walk(x.Y, d+1)
-				case *ssa.Convert:
-					walk(x.X, d+1)
-				case *ssa.Phi:
-					for _, e := range x.Edges {
-						walk(e, d+1)
-					}
-				}
-			}
-			walk(off, 0)
-			usesIdx := mentions(off, func(v ssa.Value) bool { return loadedFieldAnyName(v) == "Index" }, 0)
-			usesBeg := mentions(off, func(v ssa.Value) bool { return loadedFieldAnyName(v) == "Begin" }, 0)
-			r.Check(narrow == "" && usesIdx && usesBeg, "R2", "scheduleUpload/ReadAt-offset-64bit", ci.Pos(), "the byte offset is index*pieceSize+begin computed in 64-bit arithmetic",
-				"the byte offset passed to ReadAt is not computed from the request's Index and Begin in 64-bit arithmetic ("+narrow+" is evaluated in a 32-bit type and wraps beyond 4 GiB: the peer is sent the content of another range)")
-		}
-	}
+	uploadOffset64(r, "R2")
 	// queueing: appends to peer.requested
 	r.Fn(hm)
 	nApp := 0
@@ -481,4 +447,54 @@ func queueBoundedBefore(st *ssa.Store, q *types.Var) bool {
 		return true
 	}
 	return walk(st.Block(), instrIndex(st))
+}
+
+// uploadOffset64: wherever package peer reads piece bytes for a remote peer (scheduleUpload, or a helper factored out
+// of it), the byte offset handed to Pieces.ReadAt is index*pieceSize+begin of the served request, computed in 64-bit
+// arithmetic: a 32-bit product wraps beyond 4 GiB and the peer is sent verified bytes of another range
+// (shared by C16.R2 and C01.R7: "returned at the offset it occupies").
+func uploadOffset64(r *Report, rule string) {
+	p := r.P
+	readAt := p.Func("tor/piece", "Pieces.ReadAt")
+	if !r.Anchor(rule, "piece.(*Pieces).ReadAt", readAt != nil) {
+		return
+	}
+	calls, _ := p.callSitesOf(readAt)
+	n := 0
+	for _, ci := range calls {
+		if relPkg(ci.Parent()) != "peer" {
+			continue
+		}
+		n++
+		r.Fn(ci.Parent())
+		off := ci.Common().Args[2]
+		narrow := ""
+		var walk func(v ssa.Value, d int)
+		walk = func(v ssa.Value, d int) {
+			if d > 8 || narrow != "" {
+				return
+			}
+			switch x := v.(type) {
+			case *ssa.BinOp:
+				if (x.Op == token.MUL || x.Op == token.ADD || x.Op == token.SHL) && intBits(x.Type()) < 64 {
+					narrow = exprStr(x)
+					return
+				}
+				walk(x.X, d+1)
+				walk(x.Y, d+1)
+			case *ssa.Convert:
+				walk(x.X, d+1)
+			case *ssa.Phi:
+				for _, e := range x.Edges {
+					walk(e, d+1)
+				}
+			}
+		}
+		walk(off, 0)
+		usesIdx := mentions(off, func(v ssa.Value) bool { return loadedFieldAnyName(v) == "Index" }, 0)
+		usesBeg := mentions(off, func(v ssa.Value) bool { return loadedFieldAnyName(v) == "Begin" }, 0)
+		r.Check(narrow == "" && usesIdx && usesBeg, rule, fname(ci.Parent())+"/ReadAt-offset-64bit", ci.Pos(), "the byte offset is index*pieceSize+begin computed in 64-bit arithmetic",
+			"the byte offset passed to ReadAt is not computed from the request's Index and Begin in 64-bit arithmetic ("+narrow+" is evaluated in a 32-bit type and wraps beyond 4 GiB: the peer is sent the content of another range)")
+	}
+	r.Sentinel(rule+".upload-offset", n, 1)
 }
